@@ -19,7 +19,8 @@
    (Proofs/LitP.v); the three open classes have a witness that they do panic (Proofs/LitTopP.v).  No proofs here. *)
 From PVGen Require Export Lit.
 
-Inductive pclass := PCPathConvert | PCNestedMap | PCNoArm | PCConstContainer | PCDangling.
+Inductive pclass := PCPathConvert | PCNestedMap | PCNoArm | PCConstContainer | PCDangling
+                     | PCFloatSigns.   (* a double constant written `-+x` while the generator parses with f64::from_str *)
 
 Definition is_int_cty (ty : cty) : bool := match ty with CI8 | CI16 | CI32 | CI64 => true | _ => false end.
 Definition is_str_cty (ty : cty) : bool := match ty with CStr => true | _ => false end.
@@ -57,6 +58,12 @@ Section Class.
         | None => Some PCDangling
         end
     | _ =>
+        match (match l with
+               | LFloat s => if double_sign_run_ok || bytes_eqb s (sign_norm s) then None else Some PCFloatSigns
+               | _ => None
+               end) with
+        | Some c => Some c
+        | None =>
         match peel S (pfuel S) ty with
         | CArc _ => Some PCNoArm
         | CMap kt vt | CBTreeMap kt vt =>
@@ -127,6 +134,7 @@ Section Class.
             | _, _ => None
             end
         | _ => None
+        end
         end
     end.
 
